@@ -1,5 +1,7 @@
 import YaqsModel.Basic.Parse
 import YaqsModel.Model.Krylov
+import YaqsModel.Model.Heff
+import YaqsModel.Model.LanczosH
 /-! line protocol for the Krylov exit logic and the exact recurrence:
     `lanczos <normZero> <mMax> <epsCut> <tol> | β_0 … | φ_1 …`  → `<kind> <k> <fresh> <nsolve>` | `err`
     `arnoldi <normZero> <mMax> <thr> <tol> | η_0 … | φ_1 …`     → `<kind> <k> <fresh> <nsolve>`
@@ -21,6 +23,210 @@ def needed (kind : Kind) (k mMax : Nat) : Nat × Nat :=
   | .exhausted => (mMax - 1, mMax - 2)
 
 def chunk (n : Nat) (l : List Rat) : List (List Rat) := (List.range n).map (fun r => (l.drop (r * n)).take n)
+
+
+/-! ### requests for the effective-Hamiltonian model `Model/Heff.lean` (x19 extension)
+
+    tensors travel as row-major entry lists, every entry a pair `re im` of exact rationals
+    `heffsite <what> o p a aa b bb l r | L | R | W [| X]`   what ∈ dense | numba | apply | onehot:<col> | switch:<thr> | switchdef
+        dense / numba  → `rows cols` and all entries of the (o·aa·bb) × (p·a·b) matrix, row-major
+        apply          → all entries `[o, A, B]` of `project_site(L, R, W, X)`, `X` of shape (p, a, b)
+        onehot:<col>   → `project_site(L, R, W, e_col.reshape(p, a, b)).reshape(-1)`
+        switch:<thr>   → `dense`|`free` followed by `apply_effective_operator(X.reshape(-1))` of `_evolve_local_tensor_krylov`
+        switchdef      → the same with the model's own `DENSE_THRESHOLD = 128`
+        (apply / onehot / env answers are prefixed with the shape of the result)
+    `heffbond <what> u v m pp w | L | R [| C]`               the same for the bond problem
+    `envleft o p a aa b bb l r | L | W | ket | bra`          → entries `[b, r, B]` of `update_left_environment`
+    `envright o p a aa b bb l r | R | W | ket | bra`         → entries `[a, l, A]` of `update_right_environment`
+    `rightchain <n> | dims_1 | ket_1 | W_1 | … | dims_n | ket_n | W_n`  (dims = d p a b l r: phys, left, right bond, MPO bonds)
+        → the blocks `right_blocks[0] … right_blocks[n-1]` of `initialize_right_environments`, each row-major, separated by `|`
+    a request whose entry lists do not have exactly the announced sizes is `bad-op`. -/
+namespace HeffDrv
+open Yaqs.Heff
+
+def parseC? : List String → Option (List CRat)
+  | [] => some []
+  | [_] => none
+  | r :: i :: rest => do
+    let re ← parseRat? r
+    let im ← parseRat? i
+    let tl ← parseC? rest
+    pure (⟨re, im⟩ :: tl)
+
+def parseArr? (n : Nat) (ws : List String) : Option (Array CRat) :=
+  match parseC? ws with
+  | some l => if l.length = n then some l.toArray else none
+  | none => none
+
+def showC (z : CRat) : String := showRat z.re ++ " " ++ showRat z.im
+def showCs (l : List CRat) : String := joinWith " " (l.map showC)
+
+def siteDims? : List String → Option SiteDims
+  | [o, p, a, aa, b, bb, l, r] => do
+    pure ⟨← o.toNat?, ← p.toNat?, ← a.toNat?, ← aa.toNat?, ← b.toNat?, ← bb.toNat?, ← l.toNat?, ← r.toNat?⟩
+  | _ => none
+
+def bondDims? : List String → Option BondDims
+  | [u, v, m, pp, w] => do pure ⟨← u.toNat?, ← v.toNat?, ← m.toNat?, ← pp.toNat?, ← w.toNat?⟩
+  | _ => none
+
+/-- `onehot:7` → `("onehot", some 7)` -/
+def splitWhat (w : String) : String × Option Nat :=
+  match w.splitOn ":" with
+  | [k, n] => (k, n.toNat?)
+  | _ => (w, none)
+
+def site (what : String) (d : SiteDims) (parts : List (List String)) : String :=
+  let nL := d.a * d.l * d.aa
+  let nR := d.b * d.r * d.bb
+  let nW := d.o * d.p * d.l * d.r
+  let nX := d.p * d.a * d.b
+  let rows := d.o * d.aa * d.bb
+  match parts with
+  | lw :: rw :: ww :: rest =>
+    match parseArr? nL lw, parseArr? nR rw, parseArr? nW ww with
+    | some la, some ra, some wa =>
+      let L := ofFlat3 d.l d.aa la
+      let R := ofFlat3 d.r d.bb ra
+      let W := ofFlat4 d.p d.l d.r wa
+      match splitWhat what, rest with
+      | ("dense", none), [] => s!"{rows} {nX} " ++ showCs (entries2 rows nX (denseHeffSite d L R W))
+      | ("numba", none), [] => s!"{rows} {nX} " ++ showCs (entries2 rows nX (denseHeffSiteNumba d L R W))
+      | ("apply", none), [xw] =>
+        match parseArr? nX xw with
+        | some xa => s!"{d.o} {d.aa} {d.bb} " ++ showCs (entries3 d.o d.aa d.bb (projectSite d L R W (ofFlat3 d.a d.b xa)))
+        | none => "bad-op"
+      | ("onehot", some col), [] =>
+        if col < nX then
+          s!"{rows} " ++ showCs ((List.range rows).map (flattenT3 d.aa d.bb (projectSite d L R W (unflattenV3 d.a d.b (oneHot col)))))
+        else "bad-op"
+      | ("switch", some thr), [xw] =>
+        match parseArr? nX xw with
+        | some xa =>
+          (if useDense nX thr then "dense " else "free ") ++
+            showCs ((List.range rows).map (applyEffSite thr d L R W (fun n => xa.getD n 0)))
+        | none => "bad-op"
+      | ("switchdef", none), [xw] =>
+        match parseArr? nX xw with
+        | some xa =>
+          (if useDense nX denseThreshold then "dense " else "free ") ++
+            showCs ((List.range rows).map (applyEffSite denseThreshold d L R W (fun n => xa.getD n 0)))
+        | none => "bad-op"
+      | _, _ => "bad-op"
+    | _, _, _ => "bad-op"
+  | _ => "bad-op"
+
+def bond (what : String) (d : BondDims) (parts : List (List String)) : String :=
+  let nL := d.u * d.m * d.pp
+  let nR := d.v * d.m * d.w
+  let nX := d.u * d.v
+  let rows := d.pp * d.w
+  match parts with
+  | lw :: rw :: rest =>
+    match parseArr? nL lw, parseArr? nR rw with
+    | some la, some ra =>
+      let L := ofFlat3 d.m d.pp la
+      let R := ofFlat3 d.m d.w ra
+      match splitWhat what, rest with
+      | ("dense", none), [] => s!"{rows} {nX} " ++ showCs (entries2 rows nX (denseHeffBond d L R))
+      | ("numba", none), [] => s!"{rows} {nX} " ++ showCs (entries2 rows nX (denseHeffBondNumba d L R))
+      | ("apply", none), [xw] =>
+        match parseArr? nX xw with
+        | some xa => s!"{d.pp} {d.w} " ++ showCs (entries2 d.pp d.w (projectBond d L R (ofFlat2 d.v xa)))
+        | none => "bad-op"
+      | ("onehot", some col), [] =>
+        if col < nX then
+          s!"{rows} " ++ showCs ((List.range rows).map (flattenT2 d.w (projectBond d L R (unflattenV2 d.v (oneHot col)))))
+        else "bad-op"
+      | ("switch", some thr), [xw] =>
+        match parseArr? nX xw with
+        | some xa =>
+          (if useDense nX thr then "dense " else "free ") ++
+            showCs ((List.range rows).map (applyEffBond thr d L R (fun n => xa.getD n 0)))
+        | none => "bad-op"
+      | ("switchdef", none), [xw] =>
+        match parseArr? nX xw with
+        | some xa =>
+          (if useDense nX denseThreshold then "dense " else "free ") ++
+            showCs ((List.range rows).map (applyEffBond denseThreshold d L R (fun n => xa.getD n 0)))
+        | none => "bad-op"
+      | _, _ => "bad-op"
+    | _, _ => "bad-op"
+  | _ => "bad-op"
+
+def env (left : Bool) (d : SiteDims) (parts : List (List String)) : String :=
+  match parts with
+  | [ew, ww, kw, bw] =>
+    let nE := if left then d.a * d.l * d.aa else d.b * d.r * d.bb
+    match parseArr? nE ew, parseArr? (d.o * d.p * d.l * d.r) ww, parseArr? (d.p * d.a * d.b) kw,
+        parseArr? (d.o * d.aa * d.bb) bw with
+    | some ea, some wa, some ka, some ba =>
+      let W := ofFlat4 d.p d.l d.r wa
+      let ket := ofFlat3 d.a d.b ka
+      let bra := ofFlat3 d.aa d.bb ba
+      if left then
+        s!"{d.b} {d.r} {d.bb} " ++ showCs (entries3 d.b d.r d.bb (updateLeft CRat.conj d (ofFlat3 d.l d.aa ea) W ket bra))
+      else s!"{d.a} {d.l} {d.aa} " ++ showCs (entries3 d.a d.l d.aa (updateRight CRat.conj d (ofFlat3 d.r d.bb ea) W ket bra))
+    | _, _, _, _ => "bad-op"
+  | _ => "bad-op"
+
+/-- `dims ket W` triples of a chain: `dims = d p a b l r` with `d` = physical dimension of the MPS tensor and of the
+    MPO's out leg, `p` = the MPO's in leg -/
+def parseSites? : List (List String) → Option (List (Site CRat))
+  | [] => some []
+  | [dw, pw, aw, bw, lw, rw] :: kw :: ww :: rest => do
+    let dd ← dw.toNat?
+    let p ← pw.toNat?
+    let a ← aw.toNat?
+    let b ← bw.toNat?
+    let l ← lw.toNat?
+    let r ← rw.toNat?
+    let ka ← parseArr? (p * a * b) kw
+    let wa ← parseArr? (dd * p * l * r) ww
+    let tl ← parseSites? rest
+    pure (⟨⟨dd, p, a, a, b, b, l, r⟩, ofFlat3 a b ka, ofFlat4 p l r wa⟩ :: tl)
+  | _ => none
+
+/-- `right_blocks[i]` for `i = 0 … n-1` (the loop of `initialize_right_environments`, every block materialised) -/
+def rightBlocks (sites : List (Site CRat)) : List (List CRat) :=
+  (rightBlocksLoop sites).map fun (_, arr) => arr.toList
+
+def handle (line : String) : String :=
+  match splitBar (words line) with
+  | ("heffsite" :: what :: ds) :: parts =>
+    match siteDims? ds with
+    | some d => site what d parts
+    | none => "bad-op"
+  | ("heffbond" :: what :: ds) :: parts =>
+    match bondDims? ds with
+    | some d => bond what d parts
+    | none => "bad-op"
+  | ("envleft" :: ds) :: parts =>
+    match siteDims? ds with
+    | some d => env true d parts
+    | none => "bad-op"
+  | ("envright" :: ds) :: parts =>
+    match siteDims? ds with
+    | some d => env false d parts
+    | none => "bad-op"
+  | [["lanczosc", n, m], aw, vw] =>
+    -- `lanczosc <n> <m> | A (row-major, re im pairs) | v (re im pairs)` → `alpha_0 … | betaSq_0 … betaSq_{m-2}` (complex Hermitian A)
+    match n.toNat?, m.toNat?, parseC? aw, parseC? vw with
+    | some n, some m, some a, some v =>
+      if n = 0 ∨ a.length ≠ n * n ∨ v.length ≠ n then "bad-op"
+      else
+        let rows := (List.range n).map (fun r => (a.drop (r * n)).take n)
+        let out := Yaqs.Krylov.lanczosC rows v m
+        joinWith " " (out.alpha.map showRat) ++ " | " ++ joinWith " " ((out.betaSq.take (m - 1)).map showRat)
+    | _, _, _, _ => "bad-op"
+  | ["rightchain", n] :: parts =>
+    match n.toNat?, parseSites? parts with
+    | some n, some sites =>
+      if sites.length = n ∧ 0 < n then joinWith " | " ((rightBlocks sites).map showCs) else "bad-op"
+    | _, _ => "bad-op"
+  | _ => "bad-op"
+
+end HeffDrv
 
 def handle (line : String) : String :=
   match splitBar (words line) with
@@ -53,6 +259,6 @@ def handle (line : String) : String :=
         let out := lanczosRat (chunk n a) v m
         joinWith " " (out.alpha.map showRat) ++ " | " ++ joinWith " " ((out.betaSq.take (m - 1)).map showRat)
     | _, _, _, _ => "bad-op"
-  | _ => "bad-op"
+  | _ => HeffDrv.handle line
 
 def main : IO Unit := do lineLoop (← IO.getStdin) handle
